@@ -51,13 +51,23 @@ Fixpoint double_sq (s : bytes) : bytes :=
 Definition pg_quote (s : bytes) : bytes :=
   if is_quoted s [39%N] then s else [39%N] ++ double_sq s ++ [39%N].
 
-(** sqlx.SingleQuote.  The branch for a double-quoted input goes through strconv.Unquote, which is
-    outside the model: [None] stands for that branch (the harness never takes it in the tie; the
-    theorems are about the other two branches). *)
+(** sqlx.SingleQuote:  an input already quoted with ' is returned as is; an input quoted with the double quote (a
+    default that InspectSchema returns from a legacy SQLite schema / a SQL schema file:
+    DEFAULT its in double quotes) goes through strconv.Unquote and is then quoted like a raw input; everything
+    else is wrapped in ' with the apostrophes doubled.  strconv.Unquote (Go string-literal syntax)
+    is the Section parameter [unq] ([None] = its error, which SingleQuote returns); the harness
+    passes the real result for every input, the theorems hold for every function. *)
+Section SingleQuote.
+Variable unq : bytes -> option bytes.
 Definition single_quote (s : bytes) : option bytes :=
   if is_quoted s [39%N] then Some s
-  else if is_quoted s [34%N] then None
+  else if is_quoted s [34%N] then
+    match unq s with
+    | Some v => Some ([39%N] ++ double_sq v ++ [39%N])
+    | None => None
+    end
   else Some ([39%N] ++ double_sq s ++ [39%N]).
+End SingleQuote.
 
 (** strconv.Quote *)
 Definition hexdigit (n : N) : N := if (n <? 10)%N then (48 + n)%N else (87 + n)%N.
